@@ -16,6 +16,11 @@ Line protocol of the C15 driver.
      set <i> <k> <field> <value…>
      seti <i> <k> <x>
      pset <i> <field> <value>
+     classify <i> <target> <list intf>     every classification method of paths[i], on its current frames
+     repl <i> <k> <j> <l>                  paths[i].phasepoints[k] = paths[j].phasepoints[l]
+     ext <i> <j>                           p.phasepoints = p.phasepoints[:-1] + q.phasepoints
+     del <i> <k>                           del paths[i].phasepoints[k]
+  seq <target> <list intf> <list ops>      classifySeq (the pure function of an order list)
   cls <list intf> <list ops>      ordermin / ordermax / check_interfaces
   sp <left> <right|-> <list ops>  get_start_point
   ep <left> <right|-> <list ops>  get_end_point
@@ -114,6 +119,22 @@ def parseOp (toks : List String) : Option (Op × List String) :=
     match parseNat? i, parsePField rest with
     | some i, some (f, rest') => some (.pset i f, rest')
     | _, _ => none
+  | "classify" :: i :: t :: rest =>
+    match parseNat? i, parseInt? t, takeList parseInt? rest with
+    | some i, some t, some (intf, rest') => some (.classify i intf t, rest')
+    | _, _, _ => none
+  | "repl" :: i :: k :: j :: l :: rest =>
+    match parseNat? i, parseNat? k, parseNat? j, parseNat? l with
+    | some i, some k, some j, some l => some (.repl i k j l, rest)
+    | _, _, _, _ => none
+  | "ext" :: i :: j :: rest =>
+    match parseNat? i, parseNat? j with
+    | some i, some j => some (.ext i j, rest)
+    | _, _ => none
+  | "del" :: i :: k :: rest =>
+    match parseNat? i, parseNat? k with
+    | some i, some k => some (.del i k, rest)
+    | _, _ => none
   | _ => none
 
 partial def parseOps (toks : List String) (acc : List Op) : Option (List Op) :=
@@ -147,25 +168,6 @@ def dump (m : Machine) : String :=
   let ss := syss.map (fun s => showVals s.v (idxIn oos s.orderObj))
   String.intercalate " ; " (ps ++ ss)
 
-def showSideStart : Option Side → String
-  | none => "None" | some .L => "L" | some .R => "R" | some .U => "?"
-
-def showSideEnd : Option Side → String
-  | none => "None" | some .L => "L" | some .R => "R" | some .U => "None"
-
-def showErr : Err → String
-  | .assert => "err:assert" | .index => "err:index" | .value => "err:value" | .type => "err:type"
-
-def showVI : Except Err (Int × Nat) → String
-  | .ok (v, i) => s!"{v},{i}"
-  | .error e => showErr e
-
-def showCheck : Except Err Check → String
-  | .ok c =>
-    let cr := if c.cross.isEmpty then "-" else String.ofList (c.cross.map (fun b => if b then '1' else '0'))
-    s!"{showSideStart c.start},{showSideEnd c.end_},{if c.middle then "M" else "*"},{cr}"
-  | .error e => showErr e
-
 def handle (toks : List String) : String :=
   match toks with
   | "prog" :: rest =>
@@ -173,7 +175,14 @@ def handle (toks : List String) : String :=
     | none => "bad-op"
     | some ops =>
       let m := Machine.init.run ops
-      String.intercalate "," m.log ++ " | " ++ dump m
+      String.intercalate " " m.log ++ " | " ++ dump m
+  | "seq" :: t :: rest =>
+    match parseInt? t, takeList parseInt? rest with
+    | some t, some (intf, rest') =>
+      match takeList parseInt? rest' with
+      | some (ops, []) => showCls (classifySeq ops intf t)
+      | _ => "bad-op"
+    | _, _ => "bad-op"
   | "cls" :: rest =>
     match takeList parseInt? rest with
     | some (intf, rest') =>
